@@ -128,7 +128,7 @@ var properties = map[string]Property{
 	},
 	"C19": {
 		Level:       "other",
-		Rules:       []string{"R-RESET", "R-PEGRESET", "R-CONFIG", "R-TREE-CLOSED", "R-LOCK", "R-GLOBALS", "ST-BALANCE", "ST-FRAMES", "R-ENGINE", "G-IMPORTS"},
+		Rules:       []string{"R-RESET", "R-PEGRESET", "R-CONFIG", "R-TREE-CLOSED", "R-LOCK", "R-GLOBALS", "R-ENGINE", "G-IMPORTS"},
 		Explanation: "Decided (necessary core): every field of the global parser's action state that any Parse-phase function writes is zeroed by the deferred closure on every exit of Parse (whole-struct store of the zero value, or field-complete), also on panic; every matcher variable captured by rule closures and written during matching is assigned by the generated reset closure on every path (token tree: overwritten from index 0 and trimmed on success); pointers to the caller's Config are stored only into that action state; the returned function reaches no Config maps and no parser-owned memory, and persistent parser memory reaches no tree; no package-level variable other than the lock-protected parser is written after init (so no cache keyed by path can exist). Not decided: equality of outcomes across histories as such.",
 	},
 }
